@@ -154,6 +154,44 @@ Section Sorting.
     induction l as [|x r IH]; cbn [isort filter]; [reflexivity|].
     rewrite (insert_filter_tied SW), IH. destruct (tied k x); reflexivity.
   Qed.
+
+  (* two sorted permutations that agree on every tie class are equal: the
+     result of a STABLE sort is determined by the multiset of elements and the
+     arrival order inside each tie class *)
+  Lemma tied_refl (SW : StrictWeak) x : tied x x = true.
+  Proof. unfold tied. now rewrite (sw_irrefl SW). Qed.
+
+  Lemma sorted_classes_unique (SW : StrictWeak) :
+    forall s s', SortedBy s -> SortedBy s' -> Permutation s s' ->
+      (forall k, filter (tied k) s = filter (tied k) s') -> s = s'.
+  Proof.
+    intros s s' Hs Hs'. apply (sorted_strongly SW) in Hs. apply (sorted_strongly SW) in Hs'.
+    revert s' Hs'. induction s as [|x s IH]; intros s' Hs' HP HF.
+    - apply Permutation_nil in HP. now subst.
+    - destruct s' as [|y s']; [apply Permutation_sym, Permutation_nil in HP; discriminate|].
+      inversion Hs as [|? ? Hs1 Hx]; subst. inversion Hs' as [|? ? Hs1' Hy]; subst.
+      rewrite Forall_forall in Hx, Hy.
+      assert (Txy : tied x y = true).
+      { unfold tied. apply andb_true_iff; split; apply negb_true_iff.
+        - assert (Ix : In x (y :: s')) by (eapply Permutation_in; [exact HP | now left]).
+          destruct Ix as [E|Ix]; [subst; apply (sw_irrefl SW) | exact (Hy x Ix)].
+        - assert (Iy : In y (x :: s)) by (eapply Permutation_in; [apply Permutation_sym; exact HP | now left]).
+          destruct Iy as [E|Iy]; [subst; apply (sw_irrefl SW) | exact (Hx y Iy)]. }
+      assert (Exy : x = y).
+      { pose proof (HF x) as H. cbn [filter] in H. rewrite (tied_refl SW), Txy in H. now inversion H. }
+      subst y. f_equal. apply IH; auto.
+      + eapply Permutation_cons_inv; exact HP.
+      + intro k. pose proof (HF k) as H. cbn [filter] in H. destruct (tied k x); [now inversion H | exact H].
+  Qed.
+
+  Lemma stable_sort_invariant_gen (SW : StrictWeak) l l' :
+    Permutation l l' -> (forall k, filter (tied k) l = filter (tied k) l') -> isort l = isort l'.
+  Proof.
+    intros HP HF. apply (sorted_classes_unique SW); try apply (isort_sorted SW).
+    - eapply Permutation_trans; [apply Permutation_sym, isort_perm|].
+      eapply Permutation_trans; [exact HP | apply isort_perm].
+    - intro k. now rewrite !(isort_stable_gen SW).
+  Qed.
 End Sorting.
 
 (* comparator that looks at a key only: the KEY sequence of the result is
@@ -286,3 +324,14 @@ Section MapWrites.
       eapply Permutation_in; [apply Permutation_sym; exact HP | exact E2].
   Qed.
 End MapWrites.
+
+(* a list whose elements are all equal is determined by its length *)
+Lemma perm_all_equal {A} (a b : list A) :
+  Permutation a b -> (forall x y, In x a -> In y a -> x = y) -> a = b.
+Proof.
+  induction 1 as [|x l l' HP IH|x y l|l l' l'' H1 IH1 H2 IH2]; intro HE.
+  - reflexivity.
+  - f_equal. apply IH. intros; apply HE; now right.
+  - assert (x = y) by (apply HE; [right; now left | now left]). now subst.
+  - pose proof (IH1 HE) as E. subst l'. apply IH2. exact HE.
+Qed.
